@@ -73,6 +73,22 @@ Theorem C15_specb_is_spec : forall x signers h, witness_specb x signers h = true
 Proof. exact witness_specb_iff. Qed.
 Print Assumptions C15_specb_is_spec.
 
+(* the group tests read the CURRENT state of exactly two contracts — the executing and the calling one: two contract
+   tables that agree on them give the same answer (so nothing loaded earlier, e.g. with the context, can matter) *)
+Theorem C15_witness_reads_only_current_and_calling : forall x t1 t2,
+  assoc (current x) t1 = assoc (current x) t2 -> assoc (calling x) t1 = assoc (calling x) t2 ->
+  forall signers h,
+  check_hashed_witness (with_table x t1) signers h = check_hashed_witness (with_table x t2) signers h.
+Proof. exact witness_reads_only_current_and_calling. Qed.
+Print Assumptions C15_witness_reads_only_current_and_calling.
+
+(* evaluating against a stale table (groups as of context load) is refuted: a contract that left the group or
+   destroyed itself earlier in the invocation would still be witnessed *)
+Definition C15_stale_groups_statement : Prop := stale_groups_statement.
+Theorem C15_stale_groups_refuted : ~ C15_stale_groups_statement.
+Proof. exact stale_groups_refuted. Qed.
+Print Assumptions C15_stale_groups_refuted.
+
 (* ---- non-vacuity ---- *)
 Definition ex_ctx : wctx := mk_wctx 9 2 true true [(1, [1]); (2, [1; 2]); (3, [])].
 Definition ex_signer : signer :=
